@@ -38,6 +38,30 @@ CLAIMED = {
     design_ref="DESIGN.md section 6 C10",
     note="Buffer-level independence (capacity, stale words, in-place word movement in the dec methods) is exercised, not proved.",
     technique="Coq proof of receiver independence on value-level model + exhaustive aliasing-shape correspondence"),
+ "C05": dict(
+    category="other",
+    text="Sqrt: the full Newton algorithm of decimal_sqrt.go (float64 seed, precision schedule, final multiplication) is an executable "
+         "Coq model. Closed theorems (Props/C05.v): Sqrt(+-0)=+-0, Sqrt(+Inf)=+Inf, Sqrt(x<0) is ErrNaN for every receiver and aliasing; "
+         "precision and mode of the receiver are unchanged by Sqrt for EVERY input; and C05_sqrt_correct_refuted: the correct-rounding clause "
+         "is FALSE of the faithful model (witness by vm_compute, replayed on the implementation = known finding K1). Because the clause "
+         "is false no universal theorem exists; it is decided per input by an integer-squares decider (r rounded correctly iff "
+         "neighbouring squares bracket x) applied to the implementation's outputs, every deviation classified as the K1 shape "
+         "(exactly the adjacent neighbour) or reported as VIOLATION; model and code are tied by correspondence: " + CORR + ".",
+    design_ref="DESIGN.md section 6 C05",
+    note="Assumes float64 sqrt/mul/div are IEEE on the host (seed of the iteration). K1 reported as KNOWN-FINDING.",
+    technique="Coq executable model with refutation theorem + per-input exact decider + model/code correspondence"),
+ "C15": dict(
+    category="other",
+    text="Binary float conversions: Coq model of IEEE binary formats (L3/Bin.v), math/big.Float arithmetic as used (L3/Float.v) and "
+         "SetFloat64/SetFloat/Float/Float64/Float32. Closed theorems (Props/C15.v): +-0/+-Inf/NaN rows, decoding of all 2^64 bit "
+         "patterns, precision/mode attributes for all patterns; three refutation theorems with vm_compute witnesses show the "
+         "nearest/accuracy/exactness clauses are false of the faithful model (known findings K2, K8). The quantitative clauses (<= 1 ulp, "
+         "<= 32 ulps, nearest) are decided per input by an exact-rational oracle on the implementation's outputs; deviations must match a "
+         "K2/K8 shape exactly (second rounding of the implementation's own 64-bit intermediate; one-ulp scale error) or are VIOLATIONs; "
+         "model and code tied by correspondence: " + CORR + ".",
+    design_ref="DESIGN.md section 6 C15",
+    note="Assumes math/big.Float is correctly rounded and float64 arithmetic is IEEE. K2, K8 reported as KNOWN-FINDING.",
+    technique="Coq executable model with refutation theorems + exact-rational oracle + model/code correspondence"),
  "C18": dict(
     category="other",
     text="Partial by nature: Coq theorems (Props/C18.v) prove for every interleaving of any number of threads and any collector "
